@@ -65,21 +65,31 @@ impl WalPathManager {
         #[cfg(walrus_verif)]
         crate::wal::verif::io_gate("file_create", &path.to_string_lossy(), "")?;
         let f = std::fs::File::create(&path)?;
-        #[cfg(walrus_verif)]
-        crate::wal::verif::io_gate("file_set_len", &path.to_string_lossy(), "")?;
-        f.set_len(MAX_FILE_SIZE)?;
+        // From here on a failure must not leave the half-made file behind: the caller keeps
+        // using its current file, and a stray WAL file would take a rank (and with it a range
+        // of block ids) in the next recovery that the running process never used.
+        let finish = || -> std::io::Result<()> {
+            #[cfg(walrus_verif)]
+            crate::wal::verif::io_gate("file_set_len", &path.to_string_lossy(), "")?;
+            f.set_len(MAX_FILE_SIZE)?;
 
-        // Sync file metadata (size, etc.) to disk
-        #[cfg(walrus_verif)]
-        crate::wal::verif::io_gate("file_fsync", &path.to_string_lossy(), "")?;
-        f.sync_all()?;
+            // Sync file metadata (size, etc.) to disk
+            #[cfg(walrus_verif)]
+            crate::wal::verif::io_gate("file_fsync", &path.to_string_lossy(), "")?;
+            f.sync_all()?;
 
-        // CRITICAL for Linux: Sync parent directory to ensure directory entry is durable
-        // Without this, the file might exist but not be visible in directory listing after crash
-        #[cfg(walrus_verif)]
-        crate::wal::verif::io_gate("dir_fsync", &self.root.to_string_lossy(), "")?;
-        let dir = std::fs::File::open(&self.root)?;
-        dir.sync_all()?;
+            // CRITICAL for Linux: Sync parent directory to ensure directory entry is durable
+            // Without this, the file might exist but not be visible in directory listing after crash
+            #[cfg(walrus_verif)]
+            crate::wal::verif::io_gate("dir_fsync", &self.root.to_string_lossy(), "")?;
+            let dir = std::fs::File::open(&self.root)?;
+            dir.sync_all()?;
+            Ok(())
+        };
+        if let Err(e) = finish() {
+            let _ = std::fs::remove_file(&path);
+            return Err(e);
+        }
 
         Ok(path.to_string_lossy().into_owned())
     }
